@@ -54,8 +54,14 @@ def tokenize(data):
         gap = data[pos:m.start()]
         if not BETWEEN_OK.fullmatch(gap):
             evs.append({"t": 0, "c": 0, "f": 0, "n": 0})
-        evs.append({"t": int(m.group(1)), "c": int(m.group(2)), "f": int(m.group(3)), "n": int(m.group(4))})
+        t, c, f, n = (int(m.group(i)) for i in (1, 2, 3, 4))
+        evs.append({"t": t, "c": c, "f": f, "n": n})
         pos = m.end()
+        if n == 4 and f == 3 and data[pos:pos + 1] == b"\n":
+            # the call's own newline, directly behind its third fragment, is its fourth fragment (if it is not there,
+            # the next fragment arrives while the call is still open and the trace is rejected there)
+            evs.append({"t": t, "c": c, "f": 4, "n": 4})
+            pos += 1
     if not BETWEEN_OK.fullmatch(data[pos:]):
         evs.append({"t": 0, "c": 0, "f": 0, "n": 0})
     return evs
@@ -71,7 +77,7 @@ def print_part(chk, vh, quick):
         calls = 150 if quick else 600
         data = run_child(vh, threads, calls, stream, env)
         evs = tokenize(data)
-        expect = threads * calls * 3
+        expect = sum(4 if (c + t) % 7 in (0, 1, 2, 4) else 3 for t in range(1, threads + 1) for c in range(1, calls + 1))
         mode = "pass-through" if env else "strip"
         if env and b"\x1b[" not in data:
             raise vlib.ToolError("pass-through mode expected but no escape sequence reached the pipe")
